@@ -139,3 +139,10 @@ Example C08_skx_mandatory :
     [EHs ServerHello true false; EHs Certificate true false; EHs ServerKeyExchange true false;
      EHs ServerHelloDone true false; ECcs; EHs Finished true false] = true.
 Proof. vm_compute. split; reflexivity. Qed.
+
+(* the numbers and tables this property's model uses are the ones the sources declare: Model/GenConsts.v is
+   regenerated from the repository under test (tools/consts) before every build *)
+From V Require Import Model.GenConsts Proofs.TieC08.
+Theorem C08_constants_are_the_sources : TieC08.tie.
+Proof. exact TieC08.tie_holds. Qed.
+Print Assumptions C08_constants_are_the_sources.
